@@ -53,7 +53,33 @@ P4 = {   # two sibling modules of the same shape: their declarations sit at the 
     ],
     "nonident": [("main.oal", 2, 13)],
 }
-PROGRAMS = {"single-module": P1, "two-modules": P2, "shadowing-and-reference": P3, "sibling-modules-same-shape": P4}
+P5 = {   # an unqualified import next to a qualified one; a module imported by two modules
+    "files": {"main.oal": 'use "t.oal";\nuse "au.oal" as a;\nlet page = { \'first ident, \'items [item] };\nres /items on get -> <page>;\nres /audit on get -> <a.entry>;\n',
+              "t.oal": "let ident = num;\nlet item = { 'id ident, 'name str };\n",
+              "au.oal": 'use "t.oal" as t;\nlet entry = { \'subject t.ident, \'what str };\n'},
+    "occ": [
+        ("main.oal", 1, 16, "a", "qdecl", "qa"), ("main.oal", 2, 4, "page", "decl", "page"), ("main.oal", 2, 20, "ident", "use", "t.ident"),
+        ("main.oal", 2, 35, "item", "use", "t.item"), ("main.oal", 3, 22, "page", "use", "page"), ("main.oal", 4, 22, "a", "quse", "qa"),
+        ("main.oal", 4, 24, "entry", "use", "au.entry"),
+        ("t.oal", 0, 4, "ident", "decl", "t.ident"), ("t.oal", 1, 4, "item", "decl", "t.item"), ("t.oal", 1, 17, "ident", "use", "t.ident"),
+        ("au.oal", 0, 15, "t", "qdecl", "qt"), ("au.oal", 1, 4, "entry", "decl", "au.entry"), ("au.oal", 1, 23, "t", "quse", "qt"),
+        ("au.oal", 1, 25, "ident", "use", "t.ident"),
+    ],
+    "nonident": [("main.oal", 0, 2), ("t.oal", 1, 13)],
+}
+P6 = {   # two live local binders of the same name: parameter vs. rec binder, rec inside rec
+    "files": {"main.oal": "let tree x = { 'value x, 'kids rec x [{ 'v num, 'kids x }] };\nlet deep = rec y { 'outer y, 'inner rec y [y] };\n"
+                          "res / on get -> <tree num> :: <status=404, deep>;\n"},
+    "occ": [
+        ("main.oal", 0, 4, "tree", "decl", "tree"), ("main.oal", 0, 9, "x", "binder", "xp"), ("main.oal", 0, 22, "x", "use", "xp"),
+        ("main.oal", 0, 35, "x", "binder", "xr"), ("main.oal", 0, 54, "x", "use", "xr"),
+        ("main.oal", 1, 4, "deep", "decl", "deep"), ("main.oal", 1, 15, "y", "binder", "yo"), ("main.oal", 1, 26, "y", "use", "yo"),
+        ("main.oal", 1, 40, "y", "binder", "yi"), ("main.oal", 1, 43, "y", "use", "yi"),
+        ("main.oal", 2, 17, "tree", "use", "tree"), ("main.oal", 2, 43, "deep", "use", "deep"),
+    ],
+    "nonident": [("main.oal", 0, 31)],
+}
+PROGRAMS = {"unqualified-import": P5, "nested-same-name-binders": P6, "single-module": P1, "two-modules": P2, "shadowing-and-reference": P3, "sibling-modules-same-shape": P4}
 
 
 def pos(l, c):
